@@ -52,7 +52,8 @@ def _squash_types(stmts, rng):
     """few distinct types, so that equal-typed actions occur at several depths"""
     for st in stmts:
         if st[0] == "act":
-            st[4] = 10 + (st[4] % 2)
+            if st[4] != 5:          # 5 = "" (start_action's default action type) stays what it is
+                st[4] = 10 + (st[4] % 2)
             _squash_types(st[8], rng)
         elif st[0] == "msg":
             st[1] = 12 + (st[1] % 2)
